@@ -515,21 +515,21 @@ def stepC (m : MonC) (e : Ev) : Option MonC :=
   | .quiesce => if m.live.due && !m.outstanding.isEmpty then none else some m
   | _ => some m
 
-/-- D: SETTINGS acknowledgement, as the code does it: `needToSendSettingsAck` is a flag, so at a
-quiescent point every SETTINGS frame is *followed* by an ACK, but ACKs may be fewer. -/
+/-- D: every SETTINGS frame is acknowledged: an ACK always answers a not yet acknowledged SETTINGS
+frame, and at a live quiescent point there are as many ACKs as valid SETTINGS frames
+(`needToSendSettingsAck` is a counter). -/
 structure MonD where
   live : Live := {}
   nset : Nat := 0
   nack : Nat := 0
-  dirty : Bool := false     -- a SETTINGS frame arrived after the last ACK
 deriving Repr, DecidableEq
 
 def stepD (m : MonD) (e : Ev) : Option MonD :=
   let m := { m with live := m.live.step e }
   match e with
-  | .cSettings 0 => some { m with nset := m.nset + 1, dirty := true }
-  | .sSettingsAck => if m.nack + 1 > m.nset then none else some { m with nack := m.nack + 1, dirty := false }
-  | .quiesce => if m.live.due && m.dirty then none else some m
+  | .cSettings 0 => some { m with nset := m.nset + 1 }
+  | .sSettingsAck => if m.nack + 1 > m.nset then none else some { m with nack := m.nack + 1 }
+  | .quiesce => if m.live.due && m.nack != m.nset then none else some m
   | _ => some m
 
 /-- E: requests with malformed / connection-specific fields never reach the handler; malformed
